@@ -238,6 +238,9 @@ def reject_cases(draw):
     bad = draw(st.sampled_from(BAD_VALUE_ERR + BAD_TYPE_ERR + BAD_EITHER + (
         "empty_check_fh", "absolute_enforce_relative", "is_relative_not_bool")))
     steps = draw(st.lists(st.integers(-30, 30), min_size=1, max_size=8, unique=True))
+    # steps / time points of any magnitude (integer time points are often large numbers)
+    anchor = draw(st.sampled_from([0, 0, 0, 10 ** 5, -70000, 10 ** 6, 2 ** 40, -(10 ** 9)]))
+    steps = [v + anchor for v in steps]
     return {"bad": bad, "steps": steps, "i": draw(st.integers(0, 7)),
             "frac": draw(st.sampled_from([0.5, 0.25, -0.5, 0.125, 1e-3, 0.999]))}
 
